@@ -5,7 +5,7 @@ from . import runprog as R
 PROP = "C01"
 CORR = "Corr.C01"
 REQUIRES = ["Gen.Handlers", "Model.Run", "Spec.Run", "Spec.C01"]
-PROOF_FILES = ["Proof/RunCore.v", "Proof/C01.v"]
+PROOF_FILES = ["Proof/RunCore.v", "Proof/RunExtra.v", "Proof/RunTable.v", "Proof/RunVerdict.v", "Proof/C01.v"]
 MANIFEST = {
     "text": "Coq theorems over all finite test programs (any nesting of cleanup registration, any exceptions incl. "
             "nested/empty MultipleExceptions, KeyboardInterrupt/SystemExit, user subclasses, expectThat/force_failure, "
@@ -42,6 +42,7 @@ EXPLANATION = ("Theorems in coq/Props/C01.v over all programs and flavours; corr
                "event kinds/order and on what run() raised.")
 
 FEATS = frozenset(["details", "patch", "fixture", "onexc", "cells"])
+FEATS_INS = frozenset(["insert", "onexc", "fixture"])      # handlers for Exception-derived classes inserted while running
 
 
 def drive(case):
@@ -82,11 +83,13 @@ def nontrivial(case):
 
 
 def _exception_handlers_only(p):
-    """C01's quantifier: inserted handlers only for Exception-derived classes"""
+    """C01's quantifier: inserted handlers only for Exception-derived classes (the generator's "insert" feature
+    already inserts only such handlers while the test runs)"""
     def base(c):
         while not isinstance(c, str):
             c = c[1]
         return c in ("Kbd", "SysExit", "GenExit", "BaseException")
+    assert not any(a[0] == "inserthandler" and base(a[1]) for a in R.all_acts(p))
     return dict(p, handlers=[h for h in p["handlers"] if not base(h[0])])
 
 
@@ -109,6 +112,11 @@ def generate(rng, tier):
         R.mkprog(xfail=True, body=[["raise", M()]]),
         R.mkprog(body=[["expect", []]], up_t="none"),
         R.mkprog(up_s="none", setup=[["cleanup", 10, [["raise", E("GenExit")]]]]),
+        # exception_handlers is the very list RunTest consults: a handler inserted while the test runs counts
+        R.mkprog(setup=[["cleanup", 10, [["inserthandler", "ValueError", "skip"]]]],
+                 body=[["raise", E("Kbd")]], teardown=[["raise", E("ValueError")]]),
+        R.mkprog(body=[["inserthandler", "Exception", "xfail"], ["raise", E("SysExit")]],
+                 teardown=[["raise", E("Fail")]]),
     ]
     for k, p in enumerate(fixed):
         for f in (R.FLAVOURS if tier == "thorough" else [R.FLAVOURS[k % 7], R.FLAVOURS[(k + 3) % 7]]):
@@ -156,7 +164,7 @@ def generate(rng, tier):
     # random deeper programs
     n = 1500 if tier == "quick" else 40000
     for _ in range(n):
-        p = _exception_handlers_only(R.rand_prog(rng, feats=FEATS if rng.random() < 0.5 else frozenset(),
+        p = _exception_handlers_only(R.rand_prog(rng, feats=rng.choice([FEATS, frozenset(), frozenset(), FEATS_INS]),
                                                  p_raise=rng.choice([0.3, 0.5, 0.8])))
         cases.append({"prog": p, "flavour": rng.choice(R.FLAVOURS)})
     return cases
